@@ -707,7 +707,7 @@ func (e *Engine) scanGlobal(g *ssa.Global) globalInitInfo {
 						}
 					case *ssa.Call:
 						// sentinel errors: var errX = errors.New("...")
-						if callee := v.Call.StaticCallee(); callee != nil && (callee.String() == "errors.New" || callee.String() == "fmt.Errorf") {
+						if callee := v.Call.StaticCallee(); callee != nil && (callee.String() == "errors.New" || callee.String() == "fmt.Errorf" || callee.String() == "github.com/pkg/errors.New" || callee.String() == "github.com/pkg/errors.Errorf") {
 							name := g.Pkg.Pkg.Path() + "." + g.Name() + suffix
 							pay := e.ctx.Const("globerr:"+name, SInt)
 							e.ctx.Axiom("globerr:"+name, []string{"globerr:" + name}, And(Lt(IntLit(0), pay), Lt(pay, e.ctx.Const("nextRef0", SInt))))
